@@ -25,34 +25,228 @@ def AscendingSafe : Key → Prop
   | .slice s => s.step = none ∨ ∃ st, s.step = some st ∧ 0 < st
   | _ => True
 
-/-- Dropping columns: exactly the addressed columns disappear, the others keep order, values, dtypes. -/
+/-- small concrete TypeBlocks used for the non-vacuity examples -/
+def tbEx : TB Nat := ⟨2, [.d1 "i" [1, 2], .d2 "f" [[3, 4], [5, 6], [7, 8]]]⟩
+
+theorem tbEx_wf : tbEx.WF := by
+  simp [tbEx, TB.WF, Block.RowsOk, Block.colsOf, Block.width]
+
+theorem ascendingSafe_slice {ck : Key} (h : AscendingSafe ck) :
+    ∀ s, ck = .slice s → s.step = none ∨ ∃ st, s.step = some st ∧ 0 < st := by
+  intro s hs; subst hs; exact h
+
+theorem dropCols_map {β γ} (f : β → γ) (l : List β) (ps : List Nat) :
+    dropCols (l.map f) ps = (dropCols l ps).map f := by
+  simp only [dropCols, List.zipIdx_map, List.filter_map, List.map_map]
+  rfl
+
+/-- Dropping columns: exactly the addressed columns disappear, the others keep order, values, dtypes.
+
+    Holds for repeated positions in a list key since the repair of `_key_to_block_slices`
+    (`sorted(set(...))`, model: `(sortNat ps).eraseDups`).  Before it the mirrored model had the
+    counterexample `tb = ⟨1, [d1 "a" [1], d1 "b" [2], d1 "c" [3]]⟩`, key `.list [0, 0, 2]`:
+    the sorted targets contained the same `(block, slice)` twice, the second copy was never consumed
+    by `_drop_blocks`, every later target was ignored, and the result had columns `[[2], [3]]`
+    instead of `dropCols tb.cols [0, 0, 2] = [[2]]` (the statement then needed `cps.Nodup`). -/
 theorem drop_cols_refines_partial (tb : TB α) (h : tb.WF) (ck : Key) (cps : List Nat)
     (hsafe : AscendingSafe ck) (hck : ck.positions tb.ncols = .ok cps) (hne : tb.blocks ≠ []) :
     ∃ r, tb.drop none (some ck) = .ok r ∧
       r.cols = dropCols tb.cols cps ∧ r.dtypes = dropCols tb.dtypes cps ∧ r.rows = tb.rows := by
-  sorry
+  obtain ⟨pairs, atgts, hk, ⟨rfl, hok, hsorted, hcover⟩⟩ :=
+    tb.key_atgts h ck cps (ascendingSafe_slice hsafe) hck
+  obtain ⟨out, hout, hspec⟩ := dropBlocksGo_spec none (tb.covOf cps) 0 tb.blocks atgts
+    (fun t ht => by
+      obtain ⟨h1, b, h2, h3⟩ := hok t ht
+      exact ⟨h1, Nat.zero_le _, b, by simpa using h2, h3⟩)
+    hsorted
+    (fun p _ => by rw [tb.covOf_iff, hcover p])
+  have hrows : ∀ b ∈ out, b.RowsOk tb.rows := by
+    intro b hb c hc
+    have hmem : (b.dt, c) ∈ colsDT out := by
+      simp only [colsDT, List.mem_flatMap]
+      exact ⟨b, hb, List.mem_map.mpr ⟨c, hc, rfl⟩⟩
+    rw [hspec] at hmem
+    obtain ⟨c0, hc0, hx⟩ := dropSpec_mem _ _ _ _ _ hmem
+    simp only [delRows] at hx
+    rw [hx]
+    simp only [List.mem_flatMap] at hc0
+    obtain ⟨b0, hb0, hcb0⟩ := hc0
+    exact h.2 b0 hb0 c0 hcb0
+  obtain ⟨tb', htb'⟩ := fromBlocks_ok out tb.rows tb.rows hrows
+  obtain ⟨_, hcols, hdts⟩ := TB.fromBlocks_spec _ _ _ htb'
+  have hemp : tb.blocks.isEmpty = false := by cases hb : tb.blocks <;> simp_all
+  have hX := tb.dropSpec_eq_dropCols cps (delRows none)
+  refine ⟨{ tb' with rows := tb.rows }, ?_, ?_, ?_, rfl⟩
+  · simp only [drop, hemp, Bool.false_eq_true, if_false, hk, bind, Except.bind, pure, Except.pure, hout, htb']
+  · show tb'.cols = _
+    rw [hcols, ← colsDT_snd, hspec, hX, tb.cols_eq_colsDT, dropCols_map]
+    simp only [List.map_map, dropCols]
+    apply List.map_congr_left
+    intro x _; rfl
+  · show tb'.dtypes = _
+    rw [hdts, ← colsDT_fst, hspec, hX, tb.dtypes_eq_colsDT, dropCols_map]
+    simp only [List.map_map, dropCols]
+    apply List.map_congr_left
+    intro x _; rfl
+
+
+example : AscendingSafe (.mask [false, true, false, true]) ∧
+    (Key.mask [false, true, false, true]).positions tbEx.ncols = .ok [1, 3] ∧
+    [1, 3].Nodup ∧ tbEx.blocks ≠ [] ∧
+    (tbEx.drop none (some (.mask [false, true, false, true]))).map TB.cols = .ok [[1, 2], [5, 6]] := by
+  refine ⟨trivial, by decide, by decide, by decide, by decide⟩
+
+/-- a repeated position: columns 0 and 2 are dropped once each -/
+example : ∃ r, tbEx.drop none (some (.list [0, 0, 2])) = .ok r ∧ r.cols = [[3, 4], [7, 8]] ∧
+    r.dtypes = ["f", "f"] := by
+  obtain ⟨r, h1, h2, h3, _⟩ := drop_cols_refines_partial tbEx tbEx_wf (.list [0, 0, 2]) [0, 0, 2]
+    trivial (by decide) (by decide)
+  exact ⟨r, h1, by rw [h2]; decide, by rw [h3]; decide⟩
 
 /-- Dropping rows: every column loses exactly the addressed rows. -/
 theorem drop_rows_refines (tb : TB α) (h : tb.WF) (rk : Key) (rps : List Nat)
     (hrk : rk.positions tb.rows = .ok rps) :
     ∃ r, tb.drop (some rk) none = .ok r ∧
       r.cols = tb.cols.map (deleteRows rps) ∧ r.dtypes = tb.dtypes := by
-  sorry
+  have hgo := dropBlocksGo_nil (some rps) 0 tb.blocks
+  have hrows : ∀ b ∈ tb.blocks.map (rowDelete (some rps)),
+      b.RowsOk ((List.range tb.rows).filter (fun i => ¬ rps.contains i)).length := by
+    intro b hb
+    obtain ⟨b0, hb0, rfl⟩ := List.mem_map.mp hb
+    intro c hc
+    rw [(rowDelete_spec (some rps) b0).1] at hc
+    obtain ⟨c0, hc0, rfl⟩ := List.mem_map.mp hc
+    rw [delRows_length, h.2 b0 hb0 c0 hc0]
+  obtain ⟨tb', htb'⟩ := fromBlocks_ok _ _ (tb.rows - (rps.eraseDups).length) hrows
+  obtain ⟨_, hcols, hdts⟩ := TB.fromBlocks_spec _ _ _ htb'
+  refine ⟨{ tb' with rows := tb.rows - (rps.eraseDups).length }, ?_, ?_, ?_⟩
+  · simp only [drop, hrk, bind, Except.bind, pure, Except.pure, Except.map, hgo, htb']
+  · show tb'.cols = _
+    rw [hcols]
+    exact flatMap_colsOf_map _ _ _ (fun b => (rowDelete_spec (some rps) b).1)
+  · show tb'.dtypes = _
+    rw [hdts, List.flatMap_map]
+    apply flatMap_congr'
+    intro b _
+    rw [(rowDelete_spec (some rps) b).2.1, (rowDelete_spec (some rps) b).2.2]
 
-/-- `_ufunc_blocks`: the function is applied to exactly the addressed columns. -/
+
+example : (Key.int (-1)).positions tbEx.rows = .ok [1] ∧
+    (tbEx.drop (some (.int (-1))) none).map TB.cols = .ok [[1], [3], [5], [7]] := by decide
+
+/-- `_ufunc_blocks`: the function is applied to exactly the addressed columns.
+
+    Holds for repeated positions in a list key since the repair of `_key_to_block_slices`
+    (`sorted(set(...))`).  Before it the mirrored model had the counterexamples (a repeated target
+    stalled the ascending target iterator, and inside a 2-D block a repeated target was even emitted
+    twice), `g = map (· + 10)`: `⟨1, [d1 "a" [1], d1 "b" [2], d1 "c" [3]]⟩` with `.list [0, 0, 2]`
+    gave `[[11], [2], [3]]` (column 2 not mapped); `⟨1, [d2 "a" [[1],[2],[3],[4]], d1 "b" [5]]⟩` with
+    `.list [1, 1, 3]` gave SIX columns `[[1], [12], [12], [3], [14], [5]]` (the statement then needed
+    `cps.Nodup`). -/
 theorem ufunc_refines_partial (tb : TB α) (h : tb.WF) (ck : Key) (cps : List Nat) (g : List α → List α)
     (hsafe : AscendingSafe ck) (hck : ck.positions tb.ncols = .ok cps) :
     ∃ r, tb.ufuncBlocks ck g = .ok r ∧
       r.cols = tb.cols.mapIdx (fun j c => if j ∈ cps then g c else c) ∧ r.dtypes = tb.dtypes := by
-  sorry
+  obtain ⟨pairs, out, hk, hout, hspec⟩ := tb.mapBlocks_refines h ck cps (ascendingSafe_slice hsafe) hck
+    (f := fun b => match b with | .d1 t c => .d1 t (g c) | .d2 t cs => .d2 t (cs.map g))
+    (fd := id) (fc := g) ⟨fun _ _ => rfl, fun _ _ => rfl⟩ (fun _ => false) (fun _ => false) (fun _ => rfl)
+  refine ⟨⟨tb.rows, out⟩, ?_, ?_, ?_⟩
+  · simp only [ufuncBlocks, hk, bind, Except.bind]
+    split
+    · rename_i heq
+      cases mapBlocksGo_congr ⟨fun _ _ => rfl, fun _ _ => rfl⟩ ⟨fun _ _ => rfl, fun _ _ => rfl⟩ hout heq
+    · rename_i bs heq
+      cases mapBlocksGo_congr ⟨fun _ _ => rfl, fun _ _ => rfl⟩ ⟨fun _ _ => rfl, fun _ _ => rfl⟩ hout heq
+      rfl
+  · show out.flatMap Block.colsOf = _
+    rw [← colsDT_snd, hspec, tb.cols_eq_colsDT]
+    apply List.ext_getElem?
+    intro j
+    simp only [List.getElem?_map, List.getElem?_mapIdx]
+    cases (colsDT tb.blocks)[j]? with
+    | none => rfl
+    | some x => by_cases hj : j ∈ cps <;> simp [hj]
+  · show out.flatMap (fun b => List.replicate b.width b.dt) = _
+    rw [← colsDT_fst, hspec, tb.dtypes_eq_colsDT]
+    apply List.ext_getElem?
+    intro j
+    simp only [List.getElem?_map, List.getElem?_mapIdx]
+    cases (colsDT tb.blocks)[j]? with
+    | none => rfl
+    | some x => by_cases hj : j ∈ cps <;> simp [hj]
+
+
+example : AscendingSafe (.slice ⟨some 1, none, some 2⟩) ∧
+    (Key.slice ⟨some 1, none, some 2⟩).positions tbEx.ncols = .ok [1, 3] ∧ [1, 3].Nodup ∧
+    (tbEx.ufuncBlocks (.slice ⟨some 1, none, some 2⟩) (fun c => c.map (· + 10))).map TB.cols
+      = .ok [[1, 2], [13, 14], [5, 6], [17, 18]] := by
+  refine ⟨Or.inr ⟨2, rfl, by decide⟩, by decide, by decide, by decide⟩
+
+/-- a repeated position: columns 0 and 2 are mapped once each -/
+example : ∃ r, tbEx.ufuncBlocks (.list [0, 0, 2]) (fun c => c.map (· + 10)) = .ok r ∧
+    r.cols = [[11, 12], [3, 4], [15, 16], [7, 8]] := by
+  obtain ⟨r, h1, h2, _⟩ := ufunc_refines_partial tbEx tbEx_wf (.list [0, 0, 2]) [0, 0, 2]
+    (fun c => c.map (· + 10)) trivial (by decide)
+  exact ⟨r, h1, by rw [h2]; decide⟩
 
 /-- `_astype_blocks`: exactly the addressed columns are retyped (a column already of that dtype is
-    left as it is); unaddressed columns keep their exact dtype. -/
+    left as it is); unaddressed columns keep their exact dtype.
+
+    Holds for repeated positions in a list key since the repair of `_key_to_block_slices`
+    (see `ufunc_refines_partial`).  Before it the mirrored model had the counterexample
+    `⟨1, [d1 "a" [1], d1 "b" [2], d1 "c" [3]]⟩`, `.list [0, 0, 2]`, dtype `"z"`: dtypes became
+    `["z", "b", "c"]` instead of `["z", "b", "z"]` (the statement then needed `cps.Nodup`). -/
 theorem astype_refines_partial (tb : TB α) (h : tb.WF) (ck : Key) (cps : List Nat) (dt : DT) (cast : List α → List α)
     (hsafe : AscendingSafe ck) (hck : ck.positions tb.ncols = .ok cps) :
     ∃ r, tb.astypeBlocks ck dt cast = .ok r ∧
       r.dtypes = tb.dtypes.mapIdx (fun j d => if j ∈ cps then dt else d) ∧
       r.cols = (tb.cols.zip tb.dtypes).mapIdx (fun j cd => if j ∈ cps ∧ cd.2 ≠ dt then cast cd.1 else cd.1) := by
-  sorry
+  obtain ⟨pairs, out, hk, hout, hspec⟩ := tb.mapBlocks_refines h ck cps (ascendingSafe_slice hsafe) hck
+    (f := fun b => match b with | .d1 _ c => .d1 dt (cast c) | .d2 _ cs => .d2 dt (cs.map cast))
+    (fd := fun _ => dt) (fc := cast) ⟨fun _ _ => rfl, fun _ _ => rfl⟩
+    (fun b => decide (b.dt = dt)) (fun t => decide (t = dt)) (fun _ => rfl)
+  refine ⟨⟨tb.rows, out⟩, ?_, ?_, ?_⟩
+  · simp only [astypeBlocks, hk, bind, Except.bind]
+    split
+    · rename_i heq
+      cases mapBlocksGo_congr ⟨fun _ _ => rfl, fun _ _ => rfl⟩ ⟨fun _ _ => rfl, fun _ _ => rfl⟩ hout heq
+    · rename_i bs heq
+      cases mapBlocksGo_congr ⟨fun _ _ => rfl, fun _ _ => rfl⟩ ⟨fun _ _ => rfl, fun _ _ => rfl⟩ hout heq
+      rfl
+  · show out.flatMap (fun b => List.replicate b.width b.dt) = _
+    rw [← colsDT_fst, hspec, tb.dtypes_eq_colsDT]
+    apply List.ext_getElem?
+    intro j
+    simp only [List.getElem?_map, List.getElem?_mapIdx]
+    cases (colsDT tb.blocks)[j]? with
+    | none => rfl
+    | some x =>
+      by_cases hj : j ∈ cps <;> by_cases hx : x.1 = dt <;> simp [hj, hx]
+  · show out.flatMap Block.colsOf = _
+    rw [← colsDT_snd, hspec, tb.cols_eq_colsDT, tb.dtypes_eq_colsDT]
+    apply List.ext_getElem?
+    intro j
+    simp only [List.getElem?_map, List.getElem?_mapIdx]
+    rw [List.zip_map']
+    simp only [List.getElem?_map]
+    cases (colsDT tb.blocks)[j]? with
+    | none => rfl
+    | some x =>
+      by_cases hj : j ∈ cps <;> by_cases hx : x.1 = dt <;> simp [hj, hx]
+
+
+example : AscendingSafe (.mask [true, false, true, false]) ∧
+    (Key.mask [true, false, true, false]).positions tbEx.ncols = .ok [0, 2] ∧ [0, 2].Nodup ∧
+    (tbEx.astypeBlocks (.mask [true, false, true, false]) "f" (fun c => c.map (· + 10))).map
+      (fun r => (r.cols, r.dtypes))
+      = .ok ([[11, 12], [3, 4], [5, 6], [7, 8]], ["f", "f", "f", "f"]) := by
+  refine ⟨trivial, by decide, by decide, by decide⟩
+
+/-- a repeated position: columns 0 and 2 are retyped once each (column 2 already has the dtype) -/
+example : ∃ r, tbEx.astypeBlocks (.list [0, 0, 2]) "f" (fun c => c.map (· + 10)) = .ok r ∧
+    r.dtypes = ["f", "f", "f", "f"] ∧ r.cols = [[11, 12], [3, 4], [5, 6], [7, 8]] := by
+  obtain ⟨r, h1, h2, h3⟩ := astype_refines_partial tbEx tbEx_wf (.list [0, 0, 2]) [0, 0, 2] "f"
+    (fun c => c.map (· + 10)) trivial (by decide)
+  exact ⟨r, h1, by rw [h2]; decide, by rw [h3]; decide⟩
 
 end SF.C08
